@@ -182,9 +182,6 @@ theorem read_after_write (k : K) (fd i m : Nat) (o : Ofd) (c bs : Bytes)
       seek k1 fd .set o.off = .ok (some o.off) k2 ∧
       read k2 fd bs.length = .ok bs k3 := by
   have hemp : bs.isEmpty = false := by cases bs <;> simp_all
-  obtain ⟨path, rd, wr, app, off⟩ := o
-  simp only at hw hr happ hl
-  subst hw hr happ
   let o1 : Ofd := { o with off := o.off + bs.length }
   let t1 : Tree := insert k.tree o.path (.reg m (writeAt c o.off bs))
   let k1 : K := { (updOfd k i o1) with tree := t1 }
@@ -195,15 +192,12 @@ theorem read_after_write (k : K) (fd i m : Nat) (o : Ofd) (c bs : Bytes)
   have hg2 : getOfd k2 fd = some (i, o2) := getOfd_updOfd hg1
   have hl2 : lookup k2.tree o2.path = some (.reg m (writeAt c o.off bs)) := hl1
   refine ⟨k1, k2, updOfd k2 i { o2 with off := o2.off + bs.length }, ?_, ?_, ?_⟩
-  · simp only [write, hg, hw, hl, hemp, writePos, happ]
-    simp
-    rfl
+  · simp [write, hg, hw, hl, hemp, writePos, happ, k1, o1, t1]
   · have hnn : ¬ ((0 : Int) + (o.off : Int) < 0) := by omega
     simp only [seek, hg1, hl1, hnn]
-    simp
-    rfl
+    simp [k2, o2]
   · simp only [read, hg2, hl2]
-    simp [o2, o1, readAt_writeAt]
+    simp [o2, o1, hr, readAt_writeAt]
 
 example : ∃ k1 k2 k3, write exK3 0 [7, 8] = .ok 2 k1 ∧
     seek k1 0 .set 5 = .ok (some 5) k2 ∧ read k2 0 2 = .ok [7, 8] k3 := ⟨_, _, _, rfl, rfl, rfl⟩
